@@ -68,6 +68,9 @@ pub struct Scenario {
     /// C25: iterator walk to observe after the history
     #[serde(default)]
     pub walk: Option<WalkPlan>,
+    /// C26: the component under test and the plan applied through both iterator kinds
+    #[serde(default)]
+    pub comp: Option<crate::c26::CompPlan>,
 }
 
 /// The positions a module iterator must visit: every instruction of every local function not
